@@ -136,7 +136,10 @@ def H3Stream.read (s : H3Stream) (k : Nat) : (Bytes × Option H3Err) × H3Stream
   let go (s : H3Stream) : (Bytes × Option H3Err) × H3Stream :=
     match s.net.read (min k s.remInFrame) with
     | (some d, n') => ((d, none), { s with net := n', remInFrame := s.remInFrame - d.length })
-    | (none, n') => (([], some s.net.fin.toH3), { s with net := n' })
+    | (none, n') =>
+      -- the stream ended: inside a DATA frame that is a truncation (repaired in /repo 5ecef9d)
+      (([], some (if s.net.fin == .eof ∧ s.remInFrame > 0 then H3Err.unexpectedEOF else s.net.fin.toH3)),
+       { s with net := n' })
   if s.remInFrame ≠ 0 then go s else
   match parseNext (s.net.size + 1) s.net with
   | (.error e, n') => (([], some e), { s with net := n' })
@@ -166,7 +169,10 @@ def H3Body.read (b : H3Body) (k : Nat) : (Bytes × Option H3Err) × H3Body :=
   let k' := if b.hasCL then min k b.remaining else k
   let ((d, e), str') := b.str.read k'
   let b' := { b with str := str', remaining := b.remaining - d.length }
-  if b'.violation then ((d, some .tooMuchData), b') else ((d, e), b')
+  if b'.violation then ((d, some .tooMuchData), b')
+  -- the stream ended before the declared Content-Length was received (/repo 5ecef9d)
+  else if e == some .eof ∧ b'.hasCL ∧ b'.remaining > 0 then ((d, some .unexpectedEOF), b')
+  else ((d, e), b')
 
 /-! ### response head -/
 
@@ -262,10 +268,16 @@ def H3Stream.readFinalResponse : Nat → Nat → H3Stream → Except H3Err H3Hea
         else H3Stream.readFinalResponse fuel (n1xx + 1) s'
       else (.ok h, s')
 
-def H3Body.new (h : H3Head) (s : H3Stream) : H3Body :=
-  match h.contentLength with
-  | some n => { str := s, hasCL := true, remaining := n }
-  | none => { str := s, hasCL := false, remaining := 0 }
+/-- `newResponseBody` as `ReadResponse` arms it. A response to HEAD and a 1xx/204/304
+response never has a body that could come up short: a Content-Length there describes the
+representation (RFC 9110 §8.6), so no length accounting is armed (/repo d991601). -/
+def H3Body.new (isHead : Bool) (h : H3Head) (s : H3Stream) : H3Body :=
+  if isHead ∨ (100 ≤ h.status ∧ h.status ≤ 199) ∨ h.status = 204 ∨ h.status = 304 then
+    { str := s, hasCL := false, remaining := 0 }
+  else
+    match h.contentLength with
+    | some n => { str := s, hasCL := true, remaining := n }
+    | none => { str := s, hasCL := false, remaining := 0 }
 
 /-- Reads until the first error (incl. EOF). -/
 def H3Body.runReads (b : H3Body) (ks : List Nat) : List (Bytes × Option H3Err) × H3Body :=
